@@ -132,9 +132,10 @@ def main():
     # ---- builds
     try:
         if not a.no_build:
-            C.build_impl(False)
+            drivers = tuple(getattr(mod, 'DRIVERS', ('awkdrv',)))
+            C.build_impl(False, drivers)
             if getattr(mod, 'NEEDS_SAN', False) and tier == 'thorough':
-                C.build_impl(True)
+                C.build_impl(True, drivers)
     except C.BuildError as e:
         # the tree no longer builds: nothing can be shown
         p = C.write_replay(prop, 'build', ['implementation build failed'], [str(e)[-3000:].replace('\n', '\n# ')])
